@@ -292,7 +292,7 @@ func (t *collationSortedTree[K, V]) Prefix(p K) iter.Seq2[K, V] {
 }
 
 func (t *collationSortedTree[K, V]) Range(start, end K) iter.Seq2[K, V] {
-	if len(end) == 0 {
+	if len(end) == 0 && t.root.pointer != nil {
 		end, _ = t.restoreKey(maximum[V](t.root))
 	}
 
